@@ -354,8 +354,8 @@ fn lazy_history(t: Tier) -> BoxedStrategy<History> {
 
 fn subs() -> Vec<Box<dyn DynSub>> {
     vec![
-        Box::new(Sub { name: "history", strategy: eager_history, cases: (400, 12000), check: check_eager, max_shrink_iters: 6000 }),
-        Box::new(Sub { name: "lazy", strategy: lazy_history, cases: (150, 4000), check: check_lazy, max_shrink_iters: 6000 }),
+        Box::new(Sub { name: "history", strategy: eager_history, cases: (500, 12000), check: check_eager, max_shrink_iters: 6000 }),
+        Box::new(Sub { name: "lazy", strategy: lazy_history, cases: (200, 4000), check: check_lazy, max_shrink_iters: 6000 }),
     ]
 }
 
